@@ -590,6 +590,19 @@ def general_program(draw, cfg, max_steps=30, extra=(), disable=()):
                 feats.add('origin')
                 feats.add('zone')
                 local_defined = set()
+        elif choice == 'midlabel' and b.zone() == 'GLOBAL' and not muted:
+            # a label placed at an address in the middle of an earlier line (no bytes are placed there), then back
+            big = [ln for ln in b.lay.lines if ln['has_bytes'] and ln['size'] >= 3 and ln['zone'] == 'GLOBAL' and not ln['muted']]
+            free = [n for n in ('mid1', 'mid2') if not b.defined.get(n)]
+            if big and free and not b.dead:
+                ln = d(st.sampled_from(big))
+                back = b.cursor()
+                b.add({'t': 'org', 'e': b.lit(ln['addr'] + d(st.integers(1, ln['size'] - 1)))})
+                b.add({'t': 'label', 'name': free[0]})
+                b.defined[free[0]] = True
+                b.add({'t': 'org', 'e': b.lit(back)})
+                local_defined = set()
+                feats.add('label-inside-an-earlier-line')
         elif choice == 'orgzone-outside' and zones:
             # an origin relative to a zone that lands before its start or behind its end, and a byte placed from there
             zn = d(st.sampled_from(zones))
